@@ -22,6 +22,14 @@ Alphabet   = two tiers, see DESIGN "C03":
                 combination for ndim <= 2; for ndim >= 3 every vector with exactly one smaller and one larger
                 component plus all-equal, pad also all-smaller); no-op, mixed per-axis, reversed-order and
                 negative `axes` forms of crop / bin / fourier_resample.
+   A_spell(ndim) the same requests in other legal spellings (NumPy integer scalars / 0-d arrays as indices, slice
+                start / stop / step as NumPy ints, ndarray / list-of-NumPy-ints / boolean-mask instead of a list;
+                arguments as NumPy ints, lists vs tuples vs 1-D arrays, np.float64 factors, axes as NumPy ints and
+                negative; setter values as tuples, arrays, NumPy scalars), applied like A_wide. Differential
+                oracle: an accepted spelling behaves exactly like the canonical one (class, dtype, bytes,
+                calibration, source untouched, in-place == copying); a spelling the library rejects must raise and
+                change nothing (not a failure: the property names integers, slices, lists and Ellipsis); the
+                evidence lists accepted / rejected counts per spelling (coverage.spellings).
 Checks     every state: one origin/sampling/units entry per axis, class vs dimensionality;
            every transition: result == reference model (incl. calibration arithmetic), source
            bit-identical after every copying operation and not aliased by the result, in-place
@@ -89,7 +97,8 @@ CLAIM = (
     "byte for byte, rejected index expressions are rejected like NumPy and change nothing, and in every state origin, sampling "
     "and units have one entry per axis and the class matches the dimensionality. A widened argument tier (output shapes with "
     "independently smaller / equal / larger components, no-op, mixed, reversed-order and negative axes forms) is applied in the "
-    "shallow states. The thorough tier adds all histories of "
+    "shallow states, together with a spelling tier: the same requests written with NumPy integer scalars, lists / tuples / arrays, "
+    "np.float64 factors etc. must behave exactly like the canonical spelling or be rejected without changing anything. The thorough tier adds all histories of "
     "length 8 with at most 2 deviations from a slice-pad-crop-bin cycle. Model checking is the right level because the property "
     "quantifies over histories of a small operation alphabet and names the depth."
 )
@@ -104,7 +113,7 @@ NOTE = (
 )
 RULE = (
     "BFS with canonical-state dedup from every initial dataset, sharded by (initial, first event); the inner alphabet A_in(ndim) "
-    "is applied in every state below the depth bound, the full index alphabet A_full(ndim) and the widened argument tier A_wide(ndim) in every state up to the stated depths; "
+    "is applied in every state below the depth bound, the full index alphabet A_full(ndim), the widened argument tier A_wide(ndim) and the spelling tier A_spell(ndim) in every state up to the stated depths; "
     "all tiers are enumerated completely. Every executed variant (copying, in-place) is one transition compared with the "
     "reference model. A transition is non-trivial when it discovers a canonical state not seen before; distinct_nontrivial is the "
     "number of distinct canonical states beyond the initial ones."
@@ -452,6 +461,186 @@ def concrete_args(ev, shape):
 
 
 METHOD = {"pad": "pad", "crop": "crop", "bin": "bin", "fr": "fourier_resample"}
+
+
+# ----------------------------------------------------------------------------- spelling tier
+# A_spell(ndim): the SAME request written in another legal spelling (NumPy integer scalars instead of Python ints in
+# indices, slice members and arguments; lists / tuples / 1-D arrays; np.float64 factors; ...). Differential oracle: an
+# accepted alternative spelling must behave exactly like the canonical spelling of the same state (class, dtype, array
+# bytes, calibration; source bit-identical; in-place == copying). A spelling the library REJECTS (raises, object and
+# source untouched) is not a failure - the property names "integers, slices, lists and Ellipsis" - it is counted and
+# listed in the evidence (coverage.spellings). Event = ("sp", spelling, *canonical_event).
+INDEX_SPELLINGS = {
+    "int": ["np.int64", "np.int32", "np.intp", "np.uint8", "0d_array"],
+    "step": ["step:np.int64", "step:np.int32", "step:np.intp", "step:np.uint8"],
+    "start": ["start:np.int64", "step1:np.int64"],
+    "slice": ["all:np.int64"],
+    "list": ["ndarray", "list_of_np_ints", "bool_mask"],
+}
+_NPI = {"np.int64": np.int64, "np.int32": np.int32, "np.intp": np.intp, "np.uint8": np.uint8}
+
+
+def _alt_element(code, spelling, L):
+    """The element `code` in the given spelling, or None when the spelling does not apply to this element."""
+    if code in _INTS:
+        v = int(code)
+        if spelling in _NPI:
+            return None if (spelling == "np.uint8" and v < 0) else _NPI[spelling](v)
+        if spelling == "0d_array":
+            return np.array(v)
+        return None
+    if code == "L":
+        if spelling == "ndarray":
+            return np.array([0, 2])
+        if spelling == "list_of_np_ints":
+            return [np.int64(0), np.int64(2)]
+        if spelling == "bool_mask":
+            m = np.zeros(max(L, 3), dtype=bool)  # too long for L < 3: NumPy rejects it, like [0, 2]
+            m[[0, 2]] = True
+            return m
+        return None
+    if code == "...":
+        return None
+    sl = decode(code)
+    if spelling.startswith("step:") and sl.step is not None:
+        t = _NPI[spelling[5:]]
+        return None if (t is np.uint8 and sl.step < 0) else slice(sl.start, sl.stop, t(sl.step))
+    if spelling == "start:np.int64" and sl.start is not None:
+        return slice(np.int64(sl.start), sl.stop, sl.step)
+    if spelling == "step1:np.int64" and sl.step is None:
+        return slice(sl.start, sl.stop, np.int64(1))
+    if spelling == "all:np.int64":
+        start, stop, step = sl.indices(L)
+        if step < 0:
+            stop = stop - L if stop >= 0 else -L - 1  # sl.indices gives -1 for "down to the first element"
+        return slice(np.int64(start), np.int64(stop), np.int64(step))
+    return None
+
+
+def alt_index(codes, spelling, shape):
+    out, hit = [], False
+    for k, c in enumerate(codes):
+        e = _alt_element(c, spelling, shape[k] if k < len(shape) else 1)
+        hit = hit or e is not None
+        out.append(decode(c) if e is None else e)
+    if not hit:
+        return None
+    return out[0] if len(out) == 1 else tuple(out)
+
+
+def _npints(x):
+    if isinstance(x, (tuple, list)):
+        return tuple(_npints(v) for v in x)
+    return np.int64(x)
+
+
+def _lists(x):
+    return [_lists(v) for v in x] if isinstance(x, (tuple, list)) else x
+
+
+ARG_SPELLINGS = {
+    ("pad", "w1"): ["np.int64"],
+    ("pad", "asym"): ["list", "ndarray", "np_ints"],
+    ("pad", "out"): ["list", "ndarray", "np_ints"],
+    ("crop", "all_first"): ["list", "ndarray", "np_ints"],
+    ("crop", "ax0_first"): ["axes:list", "axes:ndarray", "axes:np_int_tuple", "axes:np.int64", "axes:int", "axes:negative_np_int"],
+    ("bin", "2"): ["np.int64", "np.int32"],
+    ("bin", "tuple"): ["list", "ndarray", "np_ints"],
+    ("bin", "2_last"): ["axes:list", "axes:ndarray", "axes:np_int_tuple", "axes:np.int64", "axes:negative_np_int"],
+    ("fr", "plus1"): ["list", "ndarray", "np_ints"],
+    ("fr", "x2_ax0"): ["factors:np.float64", "factors:float", "factors:np.int64", "axes:np.int64", "axes:list"],
+    ("fr", "half_last"): ["factors:list", "factors:ndarray", "factors:np_float_tuple"],
+}
+MAIN_ARG = {"pad": ("pad_width", "output_shape"), "crop": ("crop_widths",), "bin": ("bin_factors",), "fr": ("out_shape",)}
+SET_SPELLINGS = {
+    ("origin", "list"): ["tuple", "ndarray", "list_of_np.float64"],
+    ("origin", "scalar"): ["np.int64", "np.float64", "0d_array"],
+    ("sampling", "list"): ["tuple", "ndarray"],
+    ("sampling", "scalar"): ["np.float64", "np.float32"],
+    ("units", "list"): ["tuple", "ndarray", "list_of_np.str_"],
+    ("units", "scalar"): ["np.str_"],
+}
+
+
+def alt_args(ev, args, spelling, n):
+    """Keyword arguments of the canonical call `args` rewritten in `spelling`."""
+    a = dict(args)
+    if spelling.startswith("axes:"):
+        ax = a["axes"]
+        ax = ax[0] if isinstance(ax, tuple) else ax
+        a["axes"] = {"list": [ax], "ndarray": np.array([ax]), "np_int_tuple": (np.int64(ax),), "np.int64": np.int64(ax), "int": int(ax),
+                     "negative_np_int": (np.int64(ax - n),)}[spelling[5:]]
+        return a
+    if spelling.startswith("factors:"):
+        f = a["factors"]
+        kind = spelling[8:]
+        if kind == "np.float64":
+            a["factors"] = np.float64(f)
+        elif kind == "float":
+            a["factors"] = float(f)
+        elif kind == "np.int64":
+            a["factors"] = np.int64(f)
+        elif kind == "list":
+            a["factors"] = list(f)
+        elif kind == "ndarray":
+            a["factors"] = np.array(f)
+        else:
+            a["factors"] = tuple(np.float64(x) for x in f)
+        return a
+    key = next(k for k in MAIN_ARG[ev[0]] if k in a)
+    v = a[key]
+    if spelling in ("np.int64", "np.int32"):
+        a[key] = _NPI[spelling](v)
+    elif spelling == "list":
+        a[key] = _lists(v)
+    elif spelling == "ndarray":
+        a[key] = np.array(v)
+    else:
+        a[key] = _npints(v)
+    return a
+
+
+def alt_set_value(field, form, spelling, n):
+    v = SET_VALUES[(field, form)](n)
+    if spelling == "tuple":
+        return tuple(v)
+    if spelling == "ndarray":
+        return np.array(v)
+    if spelling == "list_of_np.float64":
+        return [np.float64(x) for x in v]
+    if spelling == "list_of_np.str_":
+        return [np.str_(x) for x in v]
+    if spelling == "0d_array":
+        return np.array(v)
+    return {"np.int64": np.int64, "np.float64": np.float64, "np.float32": np.float32, "np.str_": np.str_}[spelling](v)
+
+
+def _spell_index_bases(n):
+    forms = ("0", "-1", "1:", "::2", "::-1", "L", ":")
+    c = [(f,) for f in forms]
+    if n >= 2:
+        c += [(":",) * (n - 1) + (f,) for f in forms if f != ":"]
+        c += [("0", "::2"), ("1:", "-1"), ("L", "::-1")]
+    return [t for t in c if _valid_index(t, n)]
+
+
+_SPELL = {}
+
+
+def spell_alphabet(n):
+    if n not in _SPELL:
+        ev = []
+        all_idx = [x for v in INDEX_SPELLINGS.values() for x in v]
+        for codes in _spell_index_bases(n):
+            for sp in all_idx:
+                if alt_index(codes, sp, (4,) * n) is not None:
+                    ev.append(("sp", sp, "idx") + codes)
+        for (kind, name), sps in ARG_SPELLINGS.items():
+            ev += [("sp", sp, kind, name) for sp in sps]
+        for (field, form), sps in SET_SPELLINGS.items():
+            ev += [("sp", sp, "set", field, form) for sp in sps]
+        _SPELL[n] = ev
+    return _SPELL[n]
 
 
 # ----------------------------------------------------------------------------- reference model
@@ -804,6 +993,8 @@ def rebuild(snap):
 
 def call_text(ev, shape):
     k = ev[0]
+    if k == "sp":
+        return f"{call_text(ev[2:], shape)} spelled '{ev[1]}'"
     if k == "copy":
         return "copy()"
     if k == "set":
@@ -822,6 +1013,8 @@ def execute(live, snap, fp, ev, mode, fails, st):
     Returns (successor or None, status, n_executions, source_dirty); status 'ok' | 'loop' (rejected as
     the model demands, state unchanged) | 'fail'."""
     kind = ev[0]
+    if kind == "sp":
+        return execute_spelling(live, snap, fp, ev, fails, st)
     shape = snap.a.shape
     n = len(shape)
     L = lib()
@@ -998,14 +1191,135 @@ def execute(live, snap, fp, ev, mode, fails, st):
     return succ, "ok", nexec, dirty
 
 
+_CANON = {}  # canonical results of the state being expanded: canonical event -> (result | None, exception | None)
+
+
+def result_diff(a, b):
+    """Fields in which two live datasets differ (class, dtype, shape, array bytes, calibration by value, units)."""
+    fa, fb = fingerprint(a), fingerprint(b)
+    diff = [f for f, x, y in zip(FP_FIELDS[:4], fa[:4], fb[:4]) if x != y]
+    for f in ("origin", "sampling"):
+        x, y = np.asarray(getattr(a, f)), np.asarray(getattr(b, f))
+        if x.shape != y.shape or not np.array_equal(x.astype(float), y.astype(float)):
+            diff.append(f)
+    if list(a.units) != list(b.units):
+        diff.append("units")
+    return diff
+
+
+def execute_spelling(live, snap, fp, ev, fails, st):
+    """Differential oracle of the spelling tier: ev = ("sp", spelling, *canonical). Returns like execute();
+    status 'same' = behaved exactly like the canonical spelling (or was rejected and changed nothing)."""
+    spelling, cev = ev[1], tuple(ev[2:])
+    kind = cev[0]
+    shape = snap.a.shape
+    n = len(shape)
+    nfail0 = len(fails)
+    dirty = False
+
+    def bad(rel, field, msg):
+        fails.append(({"relation": rel, "op": kind, "field": field, "spelling": spelling}, f"{describe_m(snap)} . {call_text(ev, shape)}: {msg}"))
+
+    def source_ok(what):
+        fp2 = fingerprint(live)
+        if fp2 != fp:
+            bad("source_bit_identical", fp_diff(fp, fp2), f"{what} changed its source ({fp_diff(fp, fp2)} differ); source is now {describe(live)}")
+            return False
+        return True
+
+    def run_copying(call):
+        r = exc = None
+        try:
+            r = call(live)
+        except Exception as e:
+            exc = e
+        return r, exc
+
+    def run_on_copy(call):
+        X = copy.deepcopy(live)
+        try:
+            call(X)
+        except Exception as e:
+            return X, e
+        return X, None
+
+    # the three callables: canonical, alternative (copying or setter), alternative in place
+    alt_ip = None
+    if kind == "idx":
+        if alt_index(cev[1:], spelling, shape) is None:
+            return None, "same", 0, False
+        canon = lambda d: d[index_of(cev)]
+        alt = lambda d: d[alt_index(cev[1:], spelling, shape)]
+        in_place = False
+    elif kind == "set":
+        field, form = cev[1], cev[2]
+        canon = lambda d: setattr(d, field, SET_VALUES[(field, form)](n))
+        alt = lambda d: setattr(d, field, alt_set_value(field, form, spelling, n))
+        in_place = True
+    else:
+        args = concrete_args(cev, shape)
+        meth = METHOD[kind]
+        canon = lambda d: getattr(d, meth)(modify_in_place=False, **args)
+        alt = lambda d: getattr(d, meth)(modify_in_place=False, **alt_args(cev, args, spelling, n))
+        alt_ip = lambda d: getattr(d, meth)(modify_in_place=True, **alt_args(cev, args, spelling, n))
+        in_place = False
+
+    if cev not in _CANON:
+        if in_place:
+            X, exc = run_on_copy(canon)
+            _CANON[cev] = (X if exc is None else None, exc)
+        else:
+            _CANON[cev] = run_copying(canon)
+            if not source_ok("canonical spelling"):
+                _CANON.pop(cev, None)
+                return None, "fail", 1, True
+    r_c, exc_c = _CANON[cev]
+
+    nexec = 0
+    runs = [("setter" if in_place else "copying", alt, in_place)] + ([("in-place", alt_ip, True)] if alt_ip is not None else [])
+    for what, call, on_copy in runs:
+        nexec += 1
+        if on_copy:
+            r_a, exc_a = run_on_copy(call)
+        else:
+            r_a, exc_a = run_copying(call)
+            dirty = dirty or not source_ok(f"{what} variant")
+        if exc_a is not None:
+            # rejected although the canonical spelling is accepted / both raise (e.g. [0, 2] on a short axis)
+            st[("spell_rej_" if exc_c is None else "spell_bth_") + kind + ":" + spelling] += 1
+            if on_copy and fingerprint(r_a) != fp:
+                bad("rejected_leaves_object_untouched", what, f"{what} variant raised {exc_a!r} but changed the object: {describe(r_a)}")
+            continue
+        st["spell_acc_" + kind + ":" + spelling] += 1
+        if exc_c is not None:
+            bad("spelling_equals_canonical", "accepted_where_canonical_raises", f"{what} variant returned {describe(r_a)}; the canonical spelling raises {exc_c!r}")
+            continue
+        if not isinstance(r_a, lib().Dataset):
+            bad("spelling_equals_canonical", "type", f"{what} variant gave {type(r_a).__name__}")
+            continue
+        inv = invariants(r_a)
+        for f, msg in inv:
+            bad("class_matches_dimensionality" if f == "class" else "one_entry_per_axis", f, f"{what} variant: {msg}")
+        if inv:
+            continue
+        diff = result_diff(r_a, r_c)
+        if diff:
+            bad("spelling_equals_canonical", "+".join(diff), f"{what} variant gives {describe(r_a)}, the canonical spelling gives {describe(r_c)} ({', '.join(diff)} differ)")
+    if len(fails) != nfail0 or dirty:
+        return None, "fail", nexec, dirty
+    return None, "same", nexec, False
+
+
 # ----------------------------------------------------------------------------- exploration
 def tier_config(tier):
     """Depth bounds. maxdepth is by the ndim of the INITIAL dataset, dfull by the ndim of the STATE:
     A_full(ndim) is applied in every state of depth <= dfull[ndim] (and below maxdepth)."""
     if tier == "quick":
         # depth 3 for ndim 3 costs another 1.0M transitions (170 CPU-s): measured not to fit the 60 s budget on the shared machine
-        return {"maxdepth": {1: 3, 2: 3, 3: 2, 4: 2, 5: 2}, "dfull": {1: 1, 2: 1, 3: 1, 4: 0, 5: 0}, "dwide": {1: 1, 2: 1, 3: 1, 4: 0, 5: 0}}
-    return {"maxdepth": {1: 3, 2: 3, 3: 3, 4: 3, 5: 3}, "dfull": {1: 2, 2: 2, 3: 2, 4: 1, 5: 0}, "dwide": {1: 2, 2: 2, 3: 1, 4: 1, 5: 1}}
+        return {"maxdepth": {1: 3, 2: 3, 3: 2, 4: 2, 5: 2}, "dfull": {1: 1, 2: 1, 3: 1, 4: 0, 5: 0}, "dwide": {1: 1, 2: 1, 3: 1, 4: 0, 5: 0},
+                "dspell": {1: 1, 2: 1, 3: 1, 4: 0, 5: 0}}
+    return {"maxdepth": {1: 3, 2: 3, 3: 3, 4: 3, 5: 3}, "dfull": {1: 2, 2: 2, 3: 2, 4: 1, 5: 0}, "dwide": {1: 2, 2: 2, 3: 1, 4: 1, 5: 1},
+            "dspell": {1: 2, 2: 2, 3: 1, 4: 1, 5: 1}}
 
 
 FULL_CHUNK = 1500
@@ -1049,6 +1363,7 @@ def expand_state(sh, live, fp, hist, depth, events, collect, st):
         return
     snap = snapshot(live)
     nd = snap.a.ndim
+    _CANON.clear()
     for ev in events:
         fails = []
         succ, status, nexec, dirty = execute(live, snap, fp, ev, "both", fails, st)
@@ -1060,8 +1375,9 @@ def expand_state(sh, live, fp, hist, depth, events, collect, st):
         if dirty:
             live = rebuild(snap)
             fp = fingerprint(live)
+            _CANON.clear()
         if status != "ok":
-            st["rejected_selfloops" if status == "loop" else "failed_transitions"] += 1
+            st[{"loop": "rejected_selfloops", "same": "spellings_same_as_canonical"}.get(status, "failed_transitions")] += 1
             continue
         fps = fingerprint(succ)
         k = canon_of(fps)
@@ -1089,6 +1405,8 @@ def bfs_below(sh, start, start_fp, hist, depth, cfg, st):
                 expand_state(sh, live, fp, h, depth, full_only(nd), None, st)
             if depth <= cfg["dwide"][nd]:
                 expand_state(sh, live, fp, h, depth, wide_alphabet(nd), None, st)
+            if depth <= cfg["dspell"][nd]:
+                expand_state(sh, live, fp, h, depth, spell_alphabet(nd), None, st)
         frontier = nxt or []
         depth += 1
 
@@ -1111,6 +1429,7 @@ def shard(item, seed=0, cfg=None, scratch=None):
             sh.save(scratch, f"full_{init_i}_{lo}")
         elif kind == "wide":
             expand_state(sh, live0, fp0, [], 0, wide_alphabet(nd), None, st)
+            expand_state(sh, live0, fp0, [], 0, spell_alphabet(nd), None, st)
             sh.save(scratch, f"wide_{init_i}")
         elif kind == "bfs":
             ev = inner_alphabet(nd)[item[2]]
@@ -1154,6 +1473,8 @@ def applicable(ev, nd):
     """Deep histories use the alphabet of the INITIAL ndim. In a state whose ndim has dropped, an operation whose
     arguments cannot be formed, or an index expression that would leave no axis (excluded by the property's
     quantifier), is not applicable: the state stays and nothing is executed."""
+    if ev[0] == "sp":
+        return applicable(tuple(ev[2:]), nd)
     if ev[0] in METHOD:
         return enabled(ev[:2], nd)
     if ev[0] == "idx":
@@ -1341,7 +1662,7 @@ def run(ctx):
     parent_dev = (DEV.single, DEV.double, DEV.cal)
     ctx.tally.merge(parent)
     sizes = {n: {"A_in": len(inner_alphabet(n)), "A_in_executions_per_state": len(inner_alphabet(n)) + sum(1 for e in inner_alphabet(n) if e[0] in METHOD),
-                 "R": len(reduced_index_alphabet(n)), "A_full": len(full_index_alphabet(n)), "A_wide": len(wide_alphabet(n))} for n in range(1, 6)}
+                 "R": len(reduced_index_alphabet(n)), "A_full": len(full_index_alphabet(n)), "A_wide": len(wide_alphabet(n)), "A_spell": len(spell_alphabet(n))} for n in range(1, 6)}
     ctx.say(f"{len(INITIALS)} initial datasets; alphabets per ndim: " + ", ".join(f"{n}: |A_in|={v['A_in']} |A_full|={v['A_full']}" for n, v in sizes.items()))
     ctx.say(f"{len(items)} shards (distinct depth-1 successors + root chunks of A_full), bounds {json.dumps(cfg)}")
     # heavy shards first (scheduling only; the result does not depend on the order)
@@ -1414,6 +1735,13 @@ def _explore(ctx, cfg, items, parent, parent_dev, root_digests, sizes, side):
         all_states.append(u)
     states = int(len(np.unique(np.concatenate(all_states))))
 
+    spellings = {}
+    for k in sorted(extra):
+        if k.startswith(("spell_acc_", "spell_rej_", "spell_bth_")):
+            what = {"spell_acc_": "accepted_and_identical_to_canonical", "spell_rej_": "rejected_while_canonical_is_accepted", "spell_bth_": "both_spellings_raise"}[k[:10]]
+            spellings.setdefault(k[10:], {"accepted_and_identical_to_canonical": 0, "rejected_while_canonical_is_accepted": 0, "both_spellings_raise": 0})[what] += int(extra[k])
+            ctx.tally.extra.pop(k, None)  # reported as one map instead of ~100 counters
+    ctx.coverage["spellings"] = spellings
     transitions = sum(int(v) for k, v in extra.items() if k.startswith("tr_nd"))
     dev_steps = int(extra.get("dev_steps", 0))
     per_ndim = {}
@@ -1422,7 +1750,7 @@ def _explore(ctx, cfg, items, parent, parent_dev, root_digests, sizes, side):
         per_ndim[str(n)] = dict(sizes[n], states=per_nd_states[n], transitions=int(extra.get(f"tr_nd{n}", 0)),
                                 traces_validated_against_impl=int(extra.get(f"tr_nd{n}", 0)), max_depth=max(depths) if depths else 0,
                                 depth_bound_for_initials_of_this_ndim=cfg["maxdepth"][n], A_full_applied_in_states_up_to_depth=cfg["dfull"][n],
-                                A_wide_applied_in_states_up_to_depth=cfg["dwide"][n],
+                                A_wide_applied_in_states_up_to_depth=cfg["dwide"][n], A_spell_applied_in_states_up_to_depth=cfg["dspell"][n],
                                 initials=sum(1 for x in INITIALS if len(x[1]) == n))
     ctx.coverage.update(
         states=states,
@@ -1447,6 +1775,8 @@ def _explore(ctx, cfg, items, parent, parent_dev, root_digests, sizes, side):
     if extra.get("states_skipped_changed_after_creation", 0) and not ctx.tally.nfails:
         raise Broken("states changed after their creation although no operation was seen to modify its source")
     # vacuity guards
+    if sum(v["accepted_and_identical_to_canonical"] for v in spellings.values()) < 1000 and not ctx.tally.nfails:
+        raise Broken("degenerate enumeration: fewer than 1000 alternative spellings were accepted and compared")
     need = {"index_dropped_axis": 100, "index_changed_class": 50, "index_rejected_by_numpy": 100, "inplace_vs_copying_compared": 500, "setter_rejections": 50}
     for k, lo in need.items():
         if extra.get(k, 0) < lo and not ctx.tally.nfails:
